@@ -11,6 +11,10 @@
 //!   6 upgrade, hold, send an undecodable frame          (fatal, was connected)
 //!   7 upgrade, never answer a Connect, until the client leaves (stream request timeout if a
 //!     request is pending: retryable, was connected)
+//!   8 refuse: the listener is closed while the client makes this attempt (ConnectionRefused:
+//!     retryable, never connected); `hold` of the first entry of a run of 8s = how long the listener
+//!     stays closed, counted from the previous observed failure (or from the client's start); the
+//!     attempt itself cannot be observed, so the measured gap spans it
 //! `opens` local TCP connections are opened to the client's listener right after the server has
 //! failed that connection (i.e. while the tunnel is down), each sending 8 bytes it expects echoed.
 //! Connections after the script's end are treated as healthy.
@@ -97,8 +101,8 @@ fn open_local(port: u16, id: u64) -> Local {
 async fn scenario(c: Vec<u64>) -> Vec<u64> {
     let (max_ms, max_count, hs_ms, ch_ms) = (c[0], c[1] as u32, c[2], c[3]);
     let script: Vec<(u64, u64, u64)> = c[4..].chunks(3).filter(|x| x.len() == 3).map(|x| (x[0], x[1], x[2])).collect();
-    let listener = TcpListener::bind("127.0.0.1:0").await.unwrap();
-    let sport = listener.local_addr().unwrap().port();
+    let mut listener = Some(TcpListener::bind("127.0.0.1:0").await.unwrap());
+    let sport = listener.as_ref().unwrap().local_addr().unwrap().port();
     let lport = free_port().await;
     let args: &'static ClientArgs = Box::leak(Box::new(ClientArgs {
         server: ServerUrl::from_str(&format!("ws://127.0.0.1:{sport}/ws")).unwrap(),
@@ -117,6 +121,8 @@ async fn scenario(c: Vec<u64>) -> Vec<u64> {
     let mut delays: Vec<u64> = vec![];
     let mut last_fail: Option<Instant> = None;
     let mut attempts = 0u64;
+    let mut idx = 0usize; // next script entry (refused attempts are not accepted connections)
+    let started = Instant::now();
     let mut locals: Vec<Local> = vec![];
     let mut healthy_tasks = vec![];
     let mut final_code = 3u64;
@@ -130,6 +136,41 @@ async fn scenario(c: Vec<u64>) -> Vec<u64> {
                 break;
             }
         }
+        // a run of refused attempts: close the listener for the given time
+        if healthy_since.is_none() && script.get(idx).is_some_and(|e| e.0 == 8) {
+            let closed_for = Duration::from_millis(script[idx].1);
+            let from = last_fail.unwrap_or(started);
+            if last_fail.is_none() {
+                last_fail = Some(started);
+            }
+            while script.get(idx).is_some_and(|e| e.0 == 8) {
+                for _ in 0..script[idx].2 {
+                    locals.push(open_local(lport, 0x1900_0000 + locals.len() as u64));
+                }
+                idx += 1;
+            }
+            drop(listener.take());
+            let wait = closed_for.saturating_sub(from.elapsed());
+            let ended = tokio::select! {
+                r = &mut client => Some(r),
+                () = tokio::time::sleep(wait) => None,
+            };
+            if let Some(r) = ended {
+                final_code = match r {
+                    Ok(Ok(())) => 0,
+                    Ok(Err(Error::MaxRetryCountReached(_))) => 2,
+                    Ok(Err(_)) => 1,
+                    Err(_) => 9,
+                };
+                break;
+            }
+            listener = Some(loop {
+                match TcpListener::bind(("127.0.0.1", sport)).await {
+                    Ok(l) => break l,
+                    Err(_) => tokio::time::sleep(Duration::from_millis(2)).await,
+                }
+            });
+        }
         let acc = tokio::select! {
             r = &mut client => {
                 final_code = match r {
@@ -140,7 +181,7 @@ async fn scenario(c: Vec<u64>) -> Vec<u64> {
                 };
                 break;
             }
-            a = listener.accept() => a,
+            a = listener.as_ref().unwrap().accept() => a,
             () = tokio::time::sleep(if healthy_since.is_some() { Duration::from_millis(20) } else { longest }) => {
                 if healthy_since.is_some() { continue; }
                 // nothing happened for longer than any delay the client may sleep: it hangs
@@ -153,7 +194,8 @@ async fn scenario(c: Vec<u64>) -> Vec<u64> {
         if let Some(t) = last_fail.take() {
             delays.push(now.duration_since(t).as_millis() as u64);
         }
-        let (kind, hold, opens) = script.get(attempts as usize).copied().unwrap_or((0, 0, 0));
+        let (kind, hold, opens) = script.get(idx).copied().unwrap_or((0, 0, 0));
+        idx += 1;
         attempts += 1;
         let hold = Duration::from_millis(hold);
         match kind {
@@ -262,6 +304,41 @@ pub fn run_case(c: &[u64]) -> Vec<u64> {
     run_cases(vec![c.to_vec()]).pop().unwrap()
 }
 
+/// fill in how long the listener stays closed for each run of refused attempts (kind 8): until half
+/// way between the last refused attempt and the next one, by the delays the client is expected to sleep
+fn place_refusals(c: &mut [u64]) {
+    let max_ms = c[0];
+    let d = |j: u32| (200u64.checked_shl(j).unwrap_or(u64::MAX)).min(max_ms.max(1)).min(max_ms);
+    let n = (c.len() - 4) / 3;
+    let mut j = 0u32; // consecutive failures so far
+    let mut k = 0;
+    while k < n {
+        let kind = c[4 + 3 * k];
+        if kind == 0 {
+            break;
+        }
+        if kind != 8 {
+            if matches!(kind, 2 | 3 | 6 | 7) {
+                j = 0;
+            }
+            j += 1;
+            k += 1;
+            continue;
+        }
+        // a run of refusals starting at k; reference time = previous observed failure (or the start)
+        let mut t = if k == 0 { 0 } else { d(j - 1) }; // time of the first refused attempt
+        let first = k;
+        let mut last_t = t;
+        while k < n && c[4 + 3 * k] == 8 {
+            last_t = t;
+            t += d(j);
+            j += 1;
+            k += 1;
+        }
+        c[4 + 3 * first + 1] = (last_t + t) / 2;
+    }
+}
+
 pub fn generate(a: &Args, out: &mut Out) {
     let mut rng = Rng(a.seed ^ 0x1902);
     let mut cases: Vec<Vec<u64>> = vec![];
@@ -284,7 +361,12 @@ pub fn generate(a: &Args, out: &mut Out) {
         vec![400, 0, 400, 2000, 1, 0, 2, 3, 80, 1, 1, 0, 1],
         // stream request times out, then served
         vec![400, 0, 400, 300, 7, 3000, 1, 1, 0, 0],
+        // refused connections: at the start, and between other failures
+        vec![800, 0, 400, 2000, 8, 0, 0, 8, 0, 0, 1, 0, 0],
+        vec![800, 0, 400, 2000, 1, 0, 0, 8, 0, 1, 1, 0, 0],
+        vec![1000, 2, 400, 2000, 1, 0, 0, 8, 0, 0, 8, 0, 0, 1, 0, 0],
     ];
+    let fixed: Vec<Vec<u64>> = fixed.into_iter().map(|mut c| { place_refusals(&mut c); c }).collect();
     if !a.mode.contains("random-only") {
         cases.extend(fixed);
     }
@@ -296,11 +378,12 @@ pub fn generate(a: &Args, out: &mut Out) {
         let n = 1 + rng.below(5);
         let mut c = vec![max_ms, max_count, hs, ch];
         for _ in 0..n {
-            let kind = rng.pick(&[1u64, 1, 1, 2, 2, 3, 3, 5, 7, 4, 6, 0]);
+            let kind = rng.pick(&[1u64, 1, 1, 2, 2, 3, 3, 5, 7, 4, 6, 0, 8, 8]);
             let hold = rng.pick(&[0u64, 30, 120]);
             let opens = if rng.chance(1, 3) { 1 + rng.below(2) } else { 0 };
             c.extend([kind, if kind == 7 { 3000 } else { hold }, opens]);
         }
+        place_refusals(&mut c);
         cases.push(c);
     }
     // run in batches of 12 concurrent scenarios
